@@ -569,6 +569,17 @@ func (fc *FnCtx) resolveCallee(cc *ssa.CallCommon, st *State) calleeInfo {
 			return ci
 		}
 	}
+	// function-typed parameter of the enclosing function: `fnfield F.p(args) (results)`
+	if p, ok := cc.Value.(*ssa.Parameter); ok && p.Parent() != nil {
+		ci.name = localName(p.Parent()) + "." + p.Name()
+		if pk := p.Parent().Pkg; pk != nil {
+			ci.name = pk.Pkg.Name() + "." + ci.name
+		}
+		ci.con = fc.eng.cs.Funcs["fnfield:"+ci.name]
+		if ci.con != nil {
+			return ci
+		}
+	}
 	ci.name = "dynamic:" + cc.Value.Name()
 	return ci
 }
@@ -604,6 +615,14 @@ func (fc *FnCtx) calleeEnv(ci calleeInfo, cur, old *State) *Env {
 			env.vars[ci.con.Params[i]] = a
 		}
 		env.vars[fmt.Sprintf("arg%d", i)] = a
+		if ci.fn != nil && ci.con != nil && ci.con.Kind == "func" {
+			// a renamed parameter keeps the name its contract knows it by (rebind.go)
+			if old := fc.eng.recordedParamName(ci.fn, i); old != "" {
+				if _, clash := env.vars[old]; !clash {
+					env.vars[old] = a
+				}
+			}
+		}
 	}
 	if ci.sig.Recv() != nil || ci.isIface {
 		if len(ci.args) > 0 {
@@ -802,6 +821,22 @@ func (fc *FnCtx) unknownCall(ci calleeInfo, in ssa.Instruction, st *State, resT 
 		fc.frameCheckTargets([]WTarget{{Any: true}}, ci.name, in)
 		fc.havoc(st, []WTarget{{Any: true}})
 	}
+	// callbacks: unknown code that is handed an object of this repository behind an interface
+	// (directly, or wrapped by earlier unknown calls: io.LimitReader(tr) -> bufio.NewReader(..))
+	// may call its methods, whose effects are then unknown here: everything is havocked
+	callback := false
+	if !(ci.fn != nil && ci.fn.Pkg != nil && strings.HasPrefix(ci.fn.Pkg.Pkg.Path(), "github.com/apernet/hysteria")) {
+		for _, a := range ci.args {
+			if fc.callbackCapable(a) {
+				callback = true
+			}
+		}
+		if callback {
+			fc.note("%s is handed an object of this repository behind an interface and may call back into it: every heap region havocked at the call", ci.name)
+			fc.frameCheckTargets([]WTarget{{Any: true}}, ci.name, in)
+			fc.havoc(st, []WTarget{{Any: true}})
+		}
+	}
 	// byte slices passed to unknown code may be overwritten
 	for _, a := range ci.args {
 		if a.K == KSlice {
@@ -823,7 +858,55 @@ func (fc *FnCtx) unknownCall(ci calleeInfo, in ssa.Instruction, st *State, resT 
 	}
 	res := fc.freshVal("u_"+shortName(ci.name), resT)
 	fc.assume(fc.typeFacts(res, st.NA))
+	if callback {
+		fc.root().markTainted(res) // a wrapper around the object: handing it on is handing the object on
+	}
 	return res
+}
+
+// callbackCapable: an interface value built in this function from a pointer to a type of this
+// repository, or a value returned by unknown code that was handed such a value.
+func (fc *FnCtx) callbackCapable(a Val) bool {
+	root := fc.root()
+	switch a.K {
+	case KIface:
+		if root.tainted[a.S] {
+			return true
+		}
+		if b, ok := fc.eng.boxes[a.S]; ok && b.T != nil {
+			if pt, isPtr := b.T.Underlying().(*types.Pointer); isPtr {
+				if n, isNamed := types.Unalias(pt.Elem()).(*types.Named); isNamed && n.Obj().Pkg() != nil &&
+					strings.HasPrefix(n.Obj().Pkg().Path(), "github.com/apernet/hysteria") && n.NumMethods() > 0 {
+					return true
+				}
+			}
+		}
+	case KPtr:
+		return a.S != "" && root.tainted[a.S]
+	case KStruct, KTuple:
+		for _, f := range a.Fs {
+			if fc.callbackCapable(f) {
+				return true
+			}
+		}
+	}
+	return false
+}
+
+func (fc *FnCtx) markTainted(v Val) {
+	if fc.tainted == nil {
+		fc.tainted = map[Term]bool{}
+	}
+	switch v.K {
+	case KIface, KPtr:
+		if v.S != "" {
+			fc.tainted[v.S] = true
+		}
+	case KStruct, KTuple:
+		for _, f := range v.Fs {
+			fc.markTainted(f)
+		}
+	}
 }
 
 func (fc *FnCtx) spawn(in *ssa.Go, st *State) {
@@ -967,7 +1050,42 @@ func (fc *FnCtx) builtin(b *ssa.Builtin, cc *ssa.CallCommon, in ssa.Instruction,
 	case "recover":
 		return Val{K: KIface, T: resT, S: "0", Tag: "0"}
 	case "clear":
-		panic(unsupported("clear builtin"))
+		// clear(s) on a slice of scalars / slices: every element of s becomes the zero value
+		s := arg(0)
+		if s.K != KSlice {
+			panic(unsupported("clear on a map"))
+		}
+		et := s.T.Underlying().(*types.Slice).Elem()
+		if isObjectType(et) {
+			panic(unsupported("clear on a slice of structs"))
+		}
+		for _, lf := range cellLeaves(et) {
+			name := "elem<" + leafTypeName(et) + ">" + lf.suffix
+			sort := leafSort(lf.kind)
+			reg := fc.vc.region(st, name, 2, sort)
+			if fc.root().con != nil {
+				if _, anyOK := fc.myTargets(); !anyOK {
+					g := or(eq(s.Sl.Len, "0"), fc.allowedWrite(name, []Term{s.Sl.Base}, false, s.Sl.Off, plus(s.Sl.Off, s.Sl.Len)))
+					if g != "true" {
+						fc.oblig("frame", "clear "+fc.nameOfArg(in, 0), g, posOf(in))
+					}
+				}
+			}
+			zero := "0"
+			switch sort {
+			case "Bool":
+				zero = "false"
+			case "Real":
+				zero = "0.0"
+			case "Str":
+				zero = fc.vc.emptyStr()
+			}
+			a := fc.vc.sc.fresh("clr", arraySort(1, sort))
+			fc.assume(fmt.Sprintf("(forall ((k Int)) (! (= (select %s k) (ite (and (<= %s k) (< k (+ %s %s))) %s (select (select %s %s) k))) :pattern ((select %s k))))",
+				a, s.Sl.Off, s.Sl.Off, s.Sl.Len, zero, reg, s.Sl.Base, a))
+			fc.vc.setRegion(st, name, 2, sort, app("store", reg, s.Sl.Base, a))
+		}
+		return Val{K: KUnit}
 	case "ssa:wrapnilchk":
 		v := arg(0)
 		fc.nilCheck(v, in, "method value receiver")
